@@ -188,6 +188,12 @@ func (db *DB) sendToWriteCh(entries []*kv.Entry, waitOnThrottle bool) (*request,
 
 	if err := db.enqueueCommitRequest(cr); err != nil {
 		req.wg.Done()
+		// On every error return of sendToWriteCh the caller still owns its entry
+		// references (setEntry, SetVersionedEntry and the discard-stats writer release
+		// them). Detach them so that releasing the request does not drop them a second
+		// time, which made a write racing with or following Close panic with
+		// "kv.Entry.DecrRef: refcount underflow" instead of returning ErrBlockedWrites.
+		req.Entries = nil
 		req.DecrRef()
 		commitReqPool.Put(cr)
 		return nil, err
